@@ -138,16 +138,16 @@ func init() {
 	})
 	register(&PropSpec{
 		ID: "C02", Level: "exploration",
-		Rule:        "C01 histories with clean shutdown + reopen at generated positions, repeatedly; at every restart the closed directory is reopened once per index-file subset (all 2^k subsets when k <= 6 index files exist in thorough, otherwise none/all/each kind/singletons/random subsets) and every variant must read back as the reference map (bytes, flags, liveness; versions where the quantifier compares them); a restart is modelled as process exit at the instant Close returns (directory copied, copy opened by a fresh store instance). distinct = (present/removed index-file pattern) and (check point x residence x size x phase) tuples",
+		Rule:        "C01 histories with clean shutdown + reopen at generated positions, repeatedly; at every restart the closed directory is reopened once per index-file subset (all 2^k subsets when k <= 5 index files exist in thorough, otherwise none/all/each kind/singletons/random subsets) and every variant must read back as the reference map (bytes, flags, liveness; versions where the quantifier compares them); a restart is modelled as process exit at the instant Close returns (directory copied, copy opened by a fresh store instance). distinct = (present/removed index-file pattern) and (check point x residence x size x phase) tuples",
 		Assumptions: []string{"tombstone versions and tree-only version changes are adopted after a restart, as the property's quantifier states", "a restart inside one process on a copy of the directory is equivalent to a new process (global state is re-initialised by NewHStore); the crash-style variants of C06 use real fresh processes"},
 		Plan: func(tier string, seed uint64) []Job {
 			var jobs []Job
 			hist, ops, variants := 4, 45, "few"
 			if tier == "thorough" {
 				// (20 histories x 64 configurations with exhaustive index subsets took hours on this VM)
-				hist, ops, variants = 4, 90, "exhaustive"
+				hist, ops, variants = 3, 80, "exhaustive"
 			}
-			for i, c := range limitServed(configsFor(tier, seed+2, 14, 28), 2, seed) {
+			for i, c := range limitServed(configsFor(tier, seed+2, 14, 20), 2, seed) {
 				if i%2 == 1 {
 					c.FlushInterval = 60 // as in conf/global.yaml: the periodic flush is rate limited, a forced one (rotation, shutdown) is not
 				}
@@ -155,13 +155,13 @@ func init() {
 			}
 			if tier == "thorough" {
 				// restart at EVERY position of short histories
-				for _, c := range limitServed(configsFor(tier, seed+7, 16, 16), 1, seed+7) {
-					jobs = append(jobs, Job{Variant: "plain", Mode: "db.c02", Args: js(map[string]interface{}{"Cfg": c, "Histories": 4, "NOps": 36, "MaxVal": 3000, "BigPct": 10, "MaintPct": 15, "Restart": false, "Variants": "sample", "PosSweep": true})})
+				for _, c := range limitServed(configsFor(tier, seed+7, 8, 8), 1, seed+7) {
+					jobs = append(jobs, Job{Variant: "plain", Mode: "db.c02", Args: js(map[string]interface{}{"Cfg": c, "Histories": 2, "NOps": 36, "MaxVal": 3000, "BigPct": 10, "MaintPct": 15, "Restart": false, "Variants": "sample", "PosSweep": true})})
 				}
 			}
 			sched, nsched, nrace := 30, 3, 1
 			if tier == "thorough" {
-				sched, nsched, nrace = 150, 12, 4
+				sched, nsched, nrace = 120, 8, 3
 			}
 			for i := 0; i < nsched; i++ {
 				jobs = append(jobs, Job{Variant: "plain", Mode: "db.c02sched", Args: js(map[string]interface{}{"Cases": sched, "Cfg": StoreCfg{NumBucket: 1, TreeHeight: 3, BodyMax: 1 << 20, IndexInterval: 512, CheckVHash: i%2 == 1, FlushInterval: []int{0, 60, 60}[i%3]}})})
@@ -172,7 +172,7 @@ func init() {
 			// the server's own graceful shutdown over loopback TCP (Main's sequence: signal -> Server.Shutdown -> Serve returns -> HStore.Close)
 			nserve, cserve := 3, 8
 			if tier == "thorough" {
-				nserve, cserve = 12, 40
+				nserve, cserve = 8, 25
 			}
 			for i := 0; i < nserve; i++ {
 				jobs = append(jobs, Job{Variant: "plain", Mode: "db.c02serve", Args: js(map[string]interface{}{"Cases": cserve})})
